@@ -371,3 +371,85 @@ func emitC03Shape(t *tr) {
 	})
 	t.p("Definition almost_full_shape : list str := %s.\n", coqStrList(afOps))
 }
+
+// ---- C03: GetCertificateWithContext (Lookup/Model.v get_certificate) ----
+func init() { items = append(items, emitC03Entry) }
+
+func condStr(e ast.Expr) string {
+	switch x := e.(type) {
+	case *ast.BinaryExpr:
+		if x.Op == token.LAND || x.Op == token.LOR {
+			return condStr(x.X) + " " + x.Op.String() + " " + condStr(x.Y)
+		}
+		return operandStr(x.X) + x.Op.String() + operandStr(x.Y)
+	case *ast.ParenExpr:
+		return "(" + condStr(x.X) + ")"
+	}
+	return operandStr(e)
+}
+
+func operandStr(e ast.Expr) string {
+	switch x := e.(type) {
+	case *ast.IndexExpr:
+		return operandStr(x.X) + "[" + operandStr(x.Index) + "]"
+	case *ast.CallExpr:
+		var as []string
+		for _, a := range x.Args {
+			as = append(as, operandStr(a))
+		}
+		return exprStr(x.Fun) + "(" + strings.Join(as, ",") + ")"
+	case *ast.UnaryExpr:
+		return x.Op.String() + operandStr(x.X)
+	}
+	return exprStr(e)
+}
+
+func emitC03Entry(t *tr) {
+	fd := t.funcs["Config.GetCertificateWithContext"]
+	if fd == nil || fd.Body == nil {
+		t.errf("missing Config.GetCertificateWithContext")
+		return
+	}
+	var codes []string
+	for _, st := range fd.Body.List {
+		switch x := st.(type) {
+		case *ast.IfStmt:
+			c := "if "
+			if x.Init != nil {
+				if as, ok := x.Init.(*ast.AssignStmt); ok && len(as.Rhs) == 1 {
+					if call, ok := as.Rhs[0].(*ast.CallExpr); ok && exprStr(call.Fun) == "cfg.emit" && len(call.Args) >= 2 {
+						ev, _ := t.strLit(call.Args[1], "event name")
+						c += "err:=cfg.emit(" + ev + "); "
+					}
+				}
+			}
+			c += condStr(x.Cond)
+			// how the branch ends
+			if n := len(x.Body.List); n > 0 {
+				if rs, ok := x.Body.List[n-1].(*ast.ReturnStmt); ok {
+					var rr []string
+					for _, r := range rs.Results {
+						rr = append(rr, operandStr(r))
+					}
+					c += " -> return " + strings.Join(rr, ",")
+				} else {
+					c += " -> continue"
+				}
+			}
+			codes = append(codes, c)
+		case *ast.AssignStmt:
+			if len(x.Rhs) == 1 {
+				if call, ok := x.Rhs[0].(*ast.CallExpr); ok && exprStr(call.Fun) == "cfg.getCertDuringHandshake" {
+					codes = append(codes, "cert,err:="+operandStr(call))
+				}
+			}
+		case *ast.ReturnStmt:
+			var rr []string
+			for _, r := range x.Results {
+				rr = append(rr, operandStr(r))
+			}
+			codes = append(codes, "return "+strings.Join(rr, ","))
+		}
+	}
+	t.p("(* GetCertificateWithContext, top-level statements in source order *)\nDefinition get_certificate_shape : list str := %s.\n", coqStrList(codes))
+}
